@@ -400,7 +400,10 @@ class PayloadVENDOR(Payload):
 
     def to_dict(self):
         result = super().to_dict()
-        result['vendor_id'] = self.vendor_id.decode()
+        try:
+            result['vendor_id'] = self.vendor_id.decode()
+        except UnicodeDecodeError:
+            result['vendor_id'] = self.vendor_id.hex()
         return result
 
 
@@ -566,12 +569,15 @@ class PayloadID(Payload):
         return data
 
     def _id_data_str(self):
-        if self.id_type in (PayloadID.Type.ID_RFC822_ADDR, PayloadID.Type.ID_FQDN):
-            return self.id_data.decode()
-        elif self.id_type in (PayloadID.Type.ID_IPV4_ADDR, PayloadID.Type.ID_IPV6_ADDR):
-            return str(ip_address(self.id_data)),
-        else:
-            return self.id_data.hex()
+        try:
+            if self.id_type in (PayloadID.Type.ID_RFC822_ADDR, PayloadID.Type.ID_FQDN):
+                return self.id_data.decode()
+            elif self.id_type in (PayloadID.Type.ID_IPV4_ADDR, PayloadID.Type.ID_IPV6_ADDR):
+                return str(ip_address(self.id_data)),
+        except ValueError:
+            # not valid UTF-8, or not 4/16 octets: fall through to the hexadecimal rendering
+            pass
+        return self.id_data.hex()
 
     def to_dict(self):
         result = super().to_dict()
